@@ -395,7 +395,7 @@ QTOL = 2.83168e-6    # wntr.sim.core.WNTRSimulator._Qtol (EPANET Qtol, 1e-4 cfs)
 
 
 def spec_tags(spec):
-    tags = ['feed:' + spec.get('meta', {}).get('feed', '?'), 'feed_into:' + ('tank' if spec.get('meta', {}).get('entry') == 'T1' else 'junction'), 'hyd:%d' % spec['opts']['hyd'],
+    tags = (['history:' + spec['history'][0]] if spec.get('history') else []) + ['feed:' + spec.get('meta', {}).get('feed', '?'), 'feed_into:' + ('tank' if spec.get('meta', {}).get('entry') == 'T1' else 'junction'), 'hyd:%d' % spec['opts']['hyd'],
             'dur_h:%d' % (spec['opts']['duration'] // 3600), 'mode:' + spec['opts']['demand_model'],
             'ntanks:%d' % len(spec['tanks'])]
     tn = set(t['name'] for t in spec['tanks'])
@@ -440,7 +440,7 @@ def simulate(spec):
         wn = S.build_wn(spec)
     except Exception as e:
         return None, ('fail', exc_bucket(e, 'build'), 'building the model raised %r' % (e,))
-    run = S.run_wntr(wn, hw_approx=spec['opts']['hw_approx'])
+    run = S.run_wntr_history(wn, spec.get('history'), hw_approx=spec['opts']['hw_approx'])
     if run.exception is not None:
         return None, ('inconclusive', 'run_sim raised %s' % type(run.exception).__name__, repr(run.exception))
     if not run.ok:
